@@ -128,7 +128,7 @@ class C05Check:
     property_id = "C05"
     name = "c05-run-sim"
     level = "fault_enumeration"
-    rule = ("each case = (1-4 input-selected leaves with outcome in {success, revert, Panic, vm.assert failure, stuck} x guard in "
+    rule = ("(one run in three also drives halmos' _main on a project directory; in half of those a SIGINT / SIGTERM is delivered at a seeded scheduling point of the main thread - the handler _main registered runs on its stack; oracle: exit with 128+signum, no hang) each case = (1-4 input-selected leaves with outcome in {success, revert, Panic, vm.assert failure, stuck} x guard in "
             "{reachable, contradictory (kept alive by injected branching `unknown`), needs-mul-refinement sat / unsat}, default "
             "leaf, per-leaf solver reply kind in {truthful, unknown, hang->timeout, slower than the limit, crash with empty output, "
             "crash with truncated output, garbage, (error ...), non-zero exit with valid output, spawn OSError, unsat core line "
